@@ -21,6 +21,8 @@ func checkC17(c *Ctx, r *Report) {
 	r.floor("R17.2", 2)
 	r.floor("R17.3", 3)
 	r.floor("R17.8", 1)
+	c17ListenerRegistered(c, r)
+	r.floor("R17.13", 2)
 	// R17.12: the reply of a request whose handler ran is not cut off by a stale deadline: where the
 	// connection loop sets a write deadline before writing the reply, the deadline is computed
 	// from a clock reading (time.Now) taken after the assembler (and with it the handler) returned
@@ -1040,4 +1042,74 @@ func connSetEffect(in ssa.Instruction, t types.Type, depth int) (add, rem bool) 
 		}
 	}
 	return add, rem
+}
+
+// c17ListenerRegistered: R17.13 — Shutdown can only stop the accept loop by closing the listener
+// recorded in the Server; so on every way into the accept loop (every exported method of Server
+// from which an Accept is reached) the very listener that is accepted on has been stored into the
+// Server's listener field before the first Accept. Decided on the abstract interpretation of each
+// such method: the store record's value is the receiver of the Accept call, and the store is
+// executed before it (structural executed-before relation through the inlined frames).
+func c17ListenerRegistered(c *Ctx, r *Report) {
+	sp := c.pkg("server")
+	tn := sp.Type("Server").Type().(*types.Named)
+	st := tn.Underlying().(*types.Struct)
+	lfield := -1
+	for i := 0; i < st.NumFields(); i++ {
+		if it, ok := st.Field(i).Type().Underlying().(*types.Interface); ok {
+			hasAccept, hasClose := false, false
+			for j := 0; j < it.NumMethods(); j++ {
+				switch it.Method(j).Name() {
+				case "Accept":
+					hasAccept = true
+				case "Close":
+					hasClose = true
+				}
+			}
+			if hasAccept && hasClose {
+				lfield = i
+			}
+		}
+	}
+	if lfield < 0 {
+		r.undecided("R17.13", "server.Server", "Server has no field holding a listener (an interface with Accept and Close)", "-")
+		return
+	}
+	for _, m := range methodsOf(c, "server", "Server") {
+		if m.Object() == nil || !m.Object().Exported() {
+			continue
+		}
+		if _, isPtr := m.Signature.Recv().Type().(*types.Pointer); !isPtr {
+			continue
+		}
+		an := &Analysis{ctx: c, u: newUniverse(), top: m, logCalls: true}
+		fr := an.newFrame(m, nil, nil)
+		fr.run(dnfTrue())
+		sv, ok := fr.vals[m.Params[0]].(APtr)
+		if !ok || sv.obj == nil {
+			continue
+		}
+		path := pathStr(sv.path, lfield)
+		for _, cr := range an.calls {
+			if cr.method != "Accept" || cr.recv == nil || cr.instr == nil {
+				continue
+			}
+			id := fnID(m)
+			r.funcs[id] = true
+			r.instance("R17.13", 1)
+			want := describeAV(cr.recv)
+			okReg := false
+			for _, rc := range sv.obj.stores[path] {
+				if describeAV(rc.val) == want && cr.frame.executedBefore(sv.obj, rc, cr.instr) {
+					okReg = true
+				}
+			}
+			if okReg {
+				r.ok("R17.13", id, "the listener accepted on has been stored in Server."+st.Field(lfield).Name()+" (the one Shutdown closes) before Accept is called", posOfCall(c, cr), true)
+			} else {
+				r.fail("R17.13", id, "Accept is reached through this method without the accepted-on listener having been stored in Server."+st.Field(lfield).Name()+": Shutdown cannot close it, serve never returns and the port keeps accepting", posOfCall(c, cr),
+					fmt.Sprintf("%d store(s) to the field on this path; accepted on %s", len(sv.obj.stores[path]), want), "listener-not-registered")
+			}
+		}
+	}
 }
